@@ -15,6 +15,8 @@ What the assembly changes (and nothing else; anything unexpected -> Undecided):
       `$array.into_iter().flatten().collect::<Vec<_>>()`); both are external_body functions with an assumed std specification
   W11 `fn f(mut self, ..) { B }` -> `fn f(self, ..) { let mut vx_self = self; B[self := vx_self] }` (Verus has no `mut self` parameters)
   W7 `struct_keep`: a struct is reduced to the fields the units under contract read (names and types verbatim, generics dropped)
+  W13-W16 statement-range slices (see transform_slice): `for` over a local iterator -> loop/match, `.take(n)` -> vx_take, a named statement
+      replaced by an external call with a listed contract, the range wrapped as a function whose header is given in the .vspec
   W12 associated `const` items of a type whose methods are under contract are copied verbatim into the emitted impl
   W4 requires/ensures/invariant/decreases/proof text from the .vspec file is inserted before the body / loop body /
      a named statement. The .vspec text contains no executable statements.
@@ -196,6 +198,97 @@ def transform_fn(tree, fn, spec, keep_vis=False):
     return text
 
 
+def transform_slice(tree, fn, label, from_needle, spec):
+    """W16: a statement range of a function body - from the statement that starts with `from_needle` to the end of its enclosing block -
+    wrapped as a function. The signature comes from the .vspec (`@@ header <label>`: the free variables of the range, with their types);
+    the statements are verbatim apart from:
+      W2  (assert!/expect/unwrap -> diverging stubs)
+      W13 `for PAT in X { B }` over a local iterator variable X -> `loop { match X.next() { None => break, Some(PAT) => { B } } }`
+          (the Rust reference's definition of `for`; IntoIterator::into_iter is the identity on an Iterator)
+      W14 `E.take(N)` -> `vx_take(E, N)` (VxTake in the .vspec prelude: a verified copy of core::iter::Take::next)
+      W15 `@@ replace <label> `<statement text>`` -> the given call of an external_body function (an ASSUMED contract, listed)"""
+    raw = tree["_bytes"]
+    T = lambda n: raw[n["sp"][0]:n["sp"][1]].decode()
+    hit = None
+    for blk in extract.find_nodes(fn["body"], lambda n: isinstance(n.get("stmts"), list)) + [fn["body"]]:
+        for i, st in enumerate(blk["stmts"]):
+            if T(st).lstrip().startswith(from_needle):
+                if hit is not None and hit[0] is not blk: raise Undecided("ambiguous anchor `%s` in %s" % (from_needle, fn["path"]))
+                if hit is None: hit = (blk, i)
+    if hit is None: raise Undecided("lost anchor: statement `%s` in %s" % (from_needle, fn["path"]))
+    blk, i0 = hit
+    lo, hi = blk["stmts"][i0]["sp"][0], blk["stmts"][-1]["sp"][1]
+    inside = lambda n: lo <= n["sp"][0] and n["sp"][1] <= hi
+    edits = []
+    loops = [l for l in _loops(fn) if inside(l)]
+    for k, lp in enumerate(loops):
+        inv = "".join(spec.get("loop %s #%d" % (label, k), []))
+        if lp["k"] == "for" and lp["e"].get("k") == "path" and len(lp["e"]["segs"]) == 1 and ("desugar %s for #%d" % (label, k)) in spec:
+            X = lp["e"]["segs"][0]
+            pat = T(lp["pat"])
+            edits.append((lp["hsp"][0], lp["hsp"][1], "loop\n%s\n" % inv.rstrip()))
+            b0, b1 = lp["body"]["sp"]
+            edits.append((b0, b0 + 1, "{ match %s.next() { None => break, Some(%s) => {" % (X, pat)))
+            edits.append((b1 - 1, b1, "} } }"))
+            continue
+        if lp["k"] == "for": edits.append((lp["e"]["sp"][0], lp["e"]["sp"][0], "vx_it%d: " % k))
+        if inv.strip(): edits.append((lp["hsp"][1], lp["hsp"][1], "\n" + inv.rstrip() + "\n"))
+    for m in extract.find_nodes(blk, lambda n: n.get("k") == "mcall" and n["m"] == "take" and len(n["args"]) == 1 and inside(n)):
+        edits.append((m["sp"][0], m["recv"]["sp"][0], "vx_take("))
+        edits.append((m["recv"]["sp"][1], m["args"][0]["sp"][0], ", "))
+    for m in extract.find_nodes(blk, lambda n: n.get("k") == "macro" and inside(n)):
+        name = m["name"]
+        if name in ("assert", "debug_assert"): rep = "if !(%s) { vx_panic(); }" % T(m["args"][0])
+        elif name in ("assert_eq", "debug_assert_eq"): rep = "if !(%s == %s) { vx_panic(); }" % (T(m["args"][0]), T(m["args"][1]))
+        elif name in ("panic", "unreachable"): rep = "vx_panic()"
+        else: raise Undecided("macro %s! in the slice %s is outside the E1 subset" % (name, label))
+        if T(m).rstrip().endswith(";") and not rep.endswith("}"): rep += ";"
+        edits.append((m["sp"][0], m["sp"][1], rep))
+    for m in extract.find_nodes(blk, lambda n: n.get("k") == "mcall" and n["m"] in ("expect", "unwrap") and inside(n)):
+        edits.append((m["sp"][0], m["recv"]["sp"][0], "vx_unwrap("))
+        edits.append((m["recv"]["sp"][1], m["sp"][1], ")"))
+    text0 = raw[lo:hi].decode()
+    for key, texts in spec.items():
+        mm = re.match(r"replace (\S+) `(.*)`$", key, re.S)
+        if mm and mm.group(1) == label:
+            pos = text0.find(mm.group(2))
+            if pos < 0: raise Undecided("lost anchor: statement `%s` in the slice %s" % (mm.group(2), label))
+            at = lo + len(text0[:pos].encode())
+            edits.append((at, at + len(mm.group(2).encode()), "".join(texts).strip()))
+        mm = re.match(r"proof (\S+) (before|after|after-stmt) `(.*)`(?: #(\d+))?$", key)
+        if mm and mm.group(1) == label:
+            needle, nth = mm.group(3), int(mm.group(4) or 0)
+            pos, start = -1, 0
+            for _ in range(nth + 1):
+                pos = text0.find(needle, start)
+                if pos < 0: raise Undecided("lost anchor: `%s` #%d in the slice %s" % (needle, nth, label))
+                start = pos + 1
+            if mm.group(2) == "after-stmt":
+                semi = text0.find(";", pos)
+                at = lo + len(text0[:semi + 1].encode())
+            else:
+                at = lo + len(text0[:pos].encode()) + (len(needle.encode()) if mm.group(2) == "after" else 0)
+            edits.append((at, at, "\n" + "".join(texts).rstrip() + "\n"))
+        mm = re.match(r"proof (\S+) end-of-loop-body #(\d+)$", key)
+        if mm and mm.group(1) == label:
+            k = int(mm.group(2))
+            if k >= len(loops): raise Undecided("lost anchor: loop #%d of the slice %s" % (k, label))
+            at = loops[k]["body"]["sp"][1] - 1
+            edits.append((at, at, "\n" + "".join(texts).rstrip() + "\n"))
+    edits.sort(key=lambda e: (e[0], e[1]))
+    out, cur = [], lo
+    for s_, e_, r_ in edits:
+        if s_ < cur: raise Undecided("overlapping rewrites in the slice %s" % label)
+        out.append(raw[cur:s_].decode()); out.append(r_); cur = e_
+    out.append(raw[cur:hi].decode())
+    header = "".join(spec.get("header " + label, [])).rstrip()
+    if not header: raise Undecided("no `@@ header %s` in the spec" % label)
+    con = "".join(spec.get("fn " + label, [])).rstrip()
+    pre = "".join(spec.get("slice-prologue " + label, [])).rstrip()
+    post = "".join(spec.get("slice-epilogue " + label, [])).rstrip()
+    return "%s\n%s\n{\n%s\n%s\n%s\n}\n" % (header, con, pre, "".join(out), post), raw[lo:hi].decode()
+
+
 def transform_struct(tree, st):
     raw = tree["_bytes"]
     lo, hi = st["sp"]
@@ -269,6 +362,14 @@ def assemble(spec_path, layout):
             fn = extract.find_fn(tree, item[2])
             parts.append(transform_fn(tree, fn, spec) + "\n")
             slices.append({"fn": "%s::%s" % (item[1][:-3].replace("/", "::"), item[2]), "slice_sha": extract.sha(extract.text_of(tree, fn))})
+        elif item[0] == "slice_fn":
+            # ("slice_fn", file, fnpath, label, from_needle)
+            _, file, path, label, needle = item
+            tree = extract.vx_dump(extract.src_path(file))
+            fn = extract.find_fn(tree, path)
+            txt, src = transform_slice(tree, fn, label, needle, spec)
+            parts.append(txt)
+            slices.append({"fn": "%s::%s / statements from `%s` to the end of the enclosing block" % (file[:-3].replace("/", "::"), path, needle), "slice_sha": extract.sha(src)})
         elif item[0] == "text":
             parts.append("".join(spec.get(item[1], [])))
     parts.append("".join(spec.get("epilogue", [])))
